@@ -804,19 +804,39 @@ fn bool_merge_cases(cx: &mut Ctx, rng: &mut Rng, n: usize) {
         for at in seps.iter().rev() {
             fin.drain(*at..*at + sep);
         }
-        let replay = json!({"kind": "save-bool-merge", "max_segments": segs, "first": first, "parts": parts, "separator": sep});
+        let churn: Vec<(usize, usize, Vec<bool>)> = (0..rng.below(7)).map(|_| {
+            let pos = rng.below(fin.len() as u64 + 1) as usize;
+            let del = rng.below(4) as usize;
+            let n = if rng.chance(1, 3) { rng.range(100, 140) } else { rng.below(4) } as usize;
+            let v = if rng.chance(3, 4) { first } else { !first };
+            (pos, del, vec![v; n])
+        }).collect();
+        let replay = json!({"kind": "save-bool-merge", "max_segments": segs, "first": first, "parts": parts, "separator": sep, "churn": churn.iter().map(|c| (c.0, c.1, c.2.len(), c.2.first().copied())).collect::<Vec<_>>()});
         let r = guard(|| {
             let mut col = Column::<bool>::with_max_segments(segs);
             col.splice(0, 0, vals.clone());
             for at in seps.iter().rev() {
                 col.splice(*at, sep, Vec::<bool>::new());
             }
+            // more in-memory churn around the merged run (slabs shrink and are merged again): every step is
+            // compared with the Vec
+            let mut mirror = fin.clone();
+            let mut ok = col.iter().collect::<Vec<bool>>() == mirror;
+            for (pos, del, ins) in &churn {
+                let pos = (*pos).min(mirror.len());
+                let del = (*del).min(mirror.len() - pos);
+                col.splice(pos, del, ins.clone());
+                mirror.splice(pos..pos + del, ins.iter().cloned());
+                if col.iter().collect::<Vec<bool>>() != mirror || col.len() != mirror.len() {
+                    ok = false;
+                }
+            }
             let mem: Vec<bool> = col.iter().collect();
-            (mem, col.save())
+            (if ok { mem } else { vec![] }, mirror, col.save())
         });
         match r {
             Err(p) => cx.rep.fail(&["C35", "C34"], &format!("hexenc|panic|build-bool|{}", p.signature()), &format!("building / saving a bool column panicked: {}", p.message), replay),
-            Ok((mem, wire)) => {
+            Ok((mem, fin, wire)) => {
                 if mem != fin {
                     cx.rep.fail(&["C34"], "hexenc|edit-differs|bool", "bool column: contents after splices differ from the Vec", replay.clone());
                 }
